@@ -150,6 +150,13 @@ type internalStruct struct {
 }
 
 func internalMarshal(v any) (*internalStruct, error) {
+	return internalMarshalAs(v, nil)
+}
+
+// internalMarshalAs: slot is the type of the struct field v is stored in, nil for any other position.
+// The name of a named map, slice or array type that is not registered cannot be recorded; the value
+// only gets its type back where the decoder assigns it to a struct field of exactly that type.
+func internalMarshalAs(v any, slot reflect.Type) (*internalStruct, error) {
 	if v == nil {
 		return nil, nil // 这里表示没有值，空指针不等于没有值
 	}
@@ -199,7 +206,7 @@ func internalMarshal(v any) (*internalStruct, error) {
 				k := field.Name
 				v := rv.Field(i) // 使用Field(i)而不是FieldByName，更高效
 
-				internalValue, err := internalMarshal(v.Interface())
+				internalValue, err := internalMarshalAs(v.Interface(), field.Type)
 				if err != nil {
 					return nil, err
 				}
@@ -235,7 +242,11 @@ func internalMarshal(v any) (*internalStruct, error) {
 		ret.MapValueType = key
 		if rt.Name() != "" {
 			// a named map type keeps its name if it is registered
-			ret.NamedType = rm[rt]
+			name, ok := rm[rt]
+			if !ok && slot != rt {
+				return nil, fmt.Errorf("unknown type: %v", rt)
+			}
+			ret.NamedType = name
 		}
 
 		ret.MapValues = make(map[string]*internalStruct)
@@ -290,7 +301,11 @@ func internalMarshal(v any) (*internalStruct, error) {
 		ret.SliceValueType = key
 		if rt.Name() != "" {
 			// a named slice or array type keeps its name if it is registered
-			ret.NamedType = rm[rt]
+			name, ok := rm[rt]
+			if !ok && slot != rt {
+				return nil, fmt.Errorf("unknown type: %v", rt)
+			}
+			ret.NamedType = name
 		}
 		if rt.Kind() == reflect.Array {
 			ret.IsArray = true
